@@ -152,6 +152,10 @@ def run(ctx: Ctx) -> None:
                        where=cls_key)
     ctx.floor(brule, 4)
     guard_placement(ctx, FUNC_MODULES + [m for m in CLASS_MODULES if m in ctx.prog.modules])
+    from ..tables import t5_derivs
+    with ctx.only("T5.dtype"):  # float64 fields are differentiated in float64 (no float32 intermediate: finite-difference checks of the gradients need it)
+        t5_derivs.run_dtype(ctx)
+    ctx.floor("T5.dtype", 8)
     from .. import autograd_lint
     autograd_lint.saved_inplace(ctx, FUNC_MODULES + [m for m in CLASS_MODULES if m in ctx.prog.modules])
     autograd_lint.hook_receiver(ctx, [m for m in CLASS_MODULES if m in ctx.prog.modules])
